@@ -9,4 +9,6 @@ mod recursive;
 pub mod solve;
 
 pub use fixed_point::Cache;
+#[cfg(chalk_verif)]
+pub use fixed_point::verif;
 pub use recursive::RecursiveSolver;
